@@ -314,6 +314,10 @@ void reb_simulation_free(struct reb_simulation* const r){
 }
 
 void reb_simulation_free_pointers(struct reb_simulation* const r){
+#ifdef SERVER
+    // Stop (cancel and join) the server thread first: until then it may serialize any member of the simulation.
+    reb_simulation_stop_server(r);
+#endif // SERVER
     if (r->simulationarchive_filename){
         free(r->simulationarchive_filename);
     }
@@ -349,9 +353,6 @@ void reb_simulation_free_pointers(struct reb_simulation* const r){
         r->display_data = NULL;
     }
 #endif //OPENGL
-#ifdef SERVER
-    reb_simulation_stop_server(r);
-#endif // SERVER
     reb_tree_delete(r);
     if (r->gravity_cs){
         free(r->gravity_cs  );
